@@ -146,6 +146,8 @@ class Enumerator:
         self.refine_raises = refine_raises
         self.trust_summaries = False
         self.keep = None            # keep(name, value, fi) -> bool: leave a local symbolic
+        self.transparent = None     # transparent(callee FuncInfo) -> bool: inline silently
+        self.fresh_lists = False    # bind ``x = []`` to a unique symbol so that appends are linked
         self.opaque = opaque        # opaque(stmt, fi) -> bool  (slicing of compound statements)
         self.stop = stop            # stop(node, fi) -> bool    (cut the path before this node)
         self._raise_cache = {}
@@ -186,9 +188,10 @@ class Enumerator:
                          assume_inner=self.assume_inner, refine_raises=True)
         sub._raise_cache = self._raise_cache
         sub._cfgs = self._cfgs
+        sub.transparent = self.transparent
         try:
             paths = sub.run(callee, ctx=cctx, args=args, depth=frame.depth + 1,
-                            stack=frame.stack)
+                            stack=frame.stack, rdepth=frame.rdepth + 1)
         except AnalysisError:
             return res.raises
         out = set()
@@ -201,7 +204,7 @@ class Enumerator:
         self._raise_cache[key] = out
         return out
 
-    def run(self, fi, ctx=None, args=None, depth=0, stack=()):
+    def run(self, fi, ctx=None, args=None, depth=0, stack=(), rdepth=None):
         """Return list of Path for function fi.  args: dict param -> expr (already in the
         caller's terms); missing params stay symbolic names (defaults are NOT assumed unless
         given through args)."""
@@ -213,14 +216,16 @@ class Enumerator:
             for k, v in args.items():
                 env[k] = v
         out = []
-        frame = _Frame(self, fi, ctx, cfg, depth, stack + (fi.qualname,), out)
+        frame = _Frame(self, fi, ctx, cfg, depth, stack + (fi.qualname,), out,
+                       rdepth if rdepth is not None else depth)
         frame.walk(cfg.entry, env, [], {}, None, None)
         return out
 
 
 class _Frame:
-    def __init__(self, en, fi, ctx, cfg, depth, stack, out):
+    def __init__(self, en, fi, ctx, cfg, depth, stack, out, rdepth=0):
         self.en = en
+        self.rdepth = rdepth
         self.fi = fi
         self.ctx = ctx
         self.cfg = cfg
@@ -328,29 +333,47 @@ class _Frame:
                     if cl not in raised2:
                         raised2.append(cl)
             target = None
+            silent = False
             if res is not None and self.en.inline is not None and getattr(res, 'funcs', None) \
-                    and self.depth < self.en.max_depth:
+                    and self.rdepth < self.en.max_depth + 2:
                 cands = [(f, cx) for (f, cx) in res.funcs if f.qualname not in self.stack]
                 if len(cands) == 1 and self.en.inline(ev, cands[0][0], self.depth):
                     target = cands[0]
+            if target is None and res is not None and self.en.transparent is not None and \
+                    res.kind == 'repo' and len(res.funcs) == 1 and \
+                    res.funcs[0][0].qualname not in self.stack and self.rdepth < 8 and \
+                    self.en.transparent(res.funcs[0][0]):
+                se = getattr(res, 'self_expr', None)
+                if se is None or (isinstance(se, ast.Name) and se.id == 'self') or \
+                        res.funcs[0][0].cls is None or res.funcs[0][0].parent is not None:
+                    target = res.funcs[0]
+                    silent = True
             if target is None:
                 step(i + 1, repl, events2, raised2)
                 return
             callee, cctx = target
-            args = bind_args(callee, cexpr_b, getattr(res, 'self_expr', None), cctx)
+            if silent:
+                # a transparent helper keeps the caller's symbolic names (and their definitions)
+                args = bind_args(callee, cexpr, getattr(res, 'self_expr', None), cctx)
+                for k_, v_ in defs.items():
+                    if k_ not in args:
+                        args['$def:' + k_] = v_
+            else:
+                args = bind_args(callee, cexpr_b, getattr(res, 'self_expr', None), cctx)
             if getattr(res, 'args_override', None) is not None:
                 args = dict(res.args_override)
             if res.kind == 'class':
                 args['self'] = ast.Name(OBJ, ast.Load())
-            sub = self.en.run(callee, ctx=cctx, args=args, depth=self.depth + 1,
-                              stack=self.stack)
+            sub = self.en.run(callee, ctx=cctx, args=args,
+                              depth=self.depth if silent else self.depth + 1,
+                              stack=self.stack, rdepth=self.rdepth + 1)
             # raises contributed by the inlined paths replace the summary
             raised_base = list(raised)
             for p in sub:
                 ev_call = Event('call', expr=cexpr, node=node, func=self.fi, depth=self.depth,
                                 raw=c, ctx=self.ctx)
                 ev_call.callee = res
-                evs = events_ + [ev_call] + p.events
+                evs = events_ + ([] if silent else [ev_call]) + p.events
                 if p.outcome == 'return':
                     repl2 = dict(repl)
                     repl2[id(c)] = p.value if p.value is not None else ast.Constant(None)
@@ -721,7 +744,7 @@ class _Frame:
     # -- statements -----------------------------------------------------------------
     def bind_target(self, target, value, env, events, node):
         if isinstance(target, ast.Name):
-            if self.en.keep is not None and self.depth == 0 and \
+            if self.en.keep is not None and self.depth == 0 and self.rdepth == 0 and \
                     self.en.keep(target.id, value, self.fi):
                 # the name stays symbolic; its definition is recorded for the rule to check
                 env[target.id] = None
@@ -730,6 +753,8 @@ class _Frame:
                     events.append(Event('bind', expr=value, target=target, node=node,
                                         func=self.fi, depth=self.depth, ctx=self.ctx))
                 return
+            if self.en.fresh_lists and isinstance(value, ast.List) and not value.elts:
+                value = ast.Name('_list_L%s' % getattr(node, 'lineno', 0), ast.Load())
             env[target.id] = value
         elif isinstance(target, (ast.Tuple, ast.List)):
             if isinstance(value, (ast.Tuple, ast.List)) and len(value.elts) == len(target.elts):
